@@ -75,6 +75,7 @@ type mutant struct {
 	Props    []string `json:"properties"`
 	Why      string   `json:"why"`
 	Patch    string   `json:"-"` // unified diff (the independently seeded changes under /verif/seeded)
+	Base     string   `json:"base"` // a refactoring under /verif/seeded (e.g. "neg/N6-1") applied first: the edits then break the REFACTORED code
 }
 
 type medit struct {
@@ -180,6 +181,13 @@ func (m mutant) overlay() (map[string][]byte, bool) {
 		return patchOverlay(m.Patch)
 	}
 	ov := map[string][]byte{}
+	if m.Base != "" {
+		base, ok := patchOverlay(filepath.Join("/verif/seeded", m.Base, "patch.diff"))
+		if !ok {
+			return nil, false
+		}
+		ov = base
+	}
 	edits := append([]medit{{m.File, m.Old, m.New}}, m.Edits...)
 	for _, e := range edits {
 		p := filepath.Join(repoDir(), e.File)
